@@ -115,6 +115,7 @@ fn check_fill<const N: usize>(id: usize) {
     kani::assume(k < N);
     assert!(is_natural_order_at(&out, bw, bh, k), "[C17,C01,C02] fill_natural_order writes exactly bw * bh entries (no out-of-bounds index) forming the natural order");
     assert!(out[k] == NATURAL_ORDER[id][k], "[C17] run-time and compile-time constructions agree");
+    kani::cover!(k + 1 == N);
 }
 
 #[kani::proof]
@@ -136,6 +137,7 @@ fn fill_order_32x8_32x16_32x32() {
 // ------------------------------------------------------------------------------------------------
 // natural_order_lazy for one of the lazily built orders (id 10: 128x64, the smallest): the `static mut` +
 // Once initialisation yields a fully initialised vector of the right length
+// NOT REGISTERED: does not close (CBMC exceeds 14 GB on the 8192-entry Vec::resize + fill_natural_order(128, 64)).
 // ------------------------------------------------------------------------------------------------
 #[kani::proof]
 #[kani::unwind(8194)]
